@@ -97,9 +97,10 @@ fn not_normal(xs: &[f64], lag: usize) -> Option<String> {
     None
 }
 
-fn one<T: El>(out: &mut Out, rng: &mut Sm, big: bool) {
+fn one<T: El>(out: &mut Out, rng: &mut Sm, big: bool, zero_dim: bool) {
     let id = out.fresh_id("init");
-    let d = if rng.coin(0.15) { *rng.pick(&[0u64, 1, 2]) } else { rng.range(0, 256) } as usize;
+    // zero-length vectors (`d == 0`, `n >= 1`: n empty vectors) are requested in every run, not left to chance
+    let d = if zero_dim { 0 } else if rng.coin(0.15) { *rng.pick(&[0u64, 1, 2]) } else { rng.range(0, 256) } as usize;
     let n_big = if big { 256 } else { rng.range(1, 256) as usize };
     let seed = if rng.coin(0.2) { *rng.pick(&[0u64, 1, 42, u64::MAX]) } else { rng.next() };
     let ns: Vec<usize> = (0..4).map(|_| (if rng.coin(0.3) { *rng.pick(&[0u64, 1, 2]) as usize } else { rng.below(n_big as u64 + 1) as usize }).min(n_big)).collect();
@@ -268,10 +269,10 @@ pub fn run(out: &mut Out) {
     let n = out.n(60, 1200);
     for i in 0..n {
         if i % 2 == 0 {
-            one::<f64>(out, &mut rng, i % 6 == 0);
+            one::<f64>(out, &mut rng, i % 6 == 0, i == 2 || i == 8);
             det_and_os::<f64>(out, &mut rng);
         } else {
-            one::<f32>(out, &mut rng, i % 6 == 1);
+            one::<f32>(out, &mut rng, i % 6 == 1, i == 3 || i == 9);
             det_and_os::<f32>(out, &mut rng);
         }
     }
